@@ -424,8 +424,9 @@ def new_parser(world, log=None, tpid=None, pname=None):
     return p
 
 
-def run_stream(world, stream, parser=None, log=None, render=True):
-    """Feed the concrete events one at a time; returns Execution with per-step projections."""
+def _run_gen(world, stream, parser=None, log=None, render=True):
+    """generator: feeds ONE event per resumption (so several parser objects can be driven alternately); the Execution
+    is the value of its StopIteration"""
     from pykdebugparser.traces_parser import TracesParser  # noqa
     log = [] if log is None else log
     p = parser if parser is not None else new_parser(world, log)
@@ -442,6 +443,7 @@ def run_stream(world, stream, parser=None, log=None, render=True):
             ex.steps.append({'emit': False, 'err': 'feed:' + type(exn).__name__})
             ex.error = (k, repr(exn))
             break
+        yield k
         step = {'emit': r is not None, 'eff': project_eff(world, log)}
         if r is not None:
             try:
@@ -478,6 +480,36 @@ def run_stream(world, stream, parser=None, log=None, render=True):
     return ex
 
 
+
+
+def run_stream(world, stream, parser=None, log=None, render=True):
+    """Feed the concrete events one at a time; returns Execution with per-step projections."""
+    g = _run_gen(world, stream, parser, log, render)
+    while True:
+        try:
+            next(g)
+        except StopIteration as stop:
+            return stop.value
+
+
+def run_streams_alternating(world, streams, rnd):
+    """each stream on its OWN parser object (own table dictionaries), the objects fed alternately in random bursts:
+    what one object does must not depend on the other.  Returns the Executions in order."""
+    gens = [_run_gen(world, st) for st in streams]
+    out = [None] * len(streams)
+    live = list(range(len(streams)))
+    while live:
+        i = rnd.choice(live)
+        for _ in range(rnd.choice([1, 1, 2, 5])):
+            try:
+                next(gens[i])
+            except StopIteration as stop:
+                out[i] = stop.value
+                live.remove(i)
+                break
+    return out
+
+
 def observation(oid, stream, ex, mode):
     n = len(ex.steps)
     evs = []
@@ -501,19 +533,30 @@ def describe(world, stream, upto=None):
 VAL_CONSTS = 'CONSTANT Variant = "ok"\n'
 
 
-def validate_streams(ctx, cases, mode, tag, sig_prefix=None, timeout=3000):
+def validate_streams(ctx, cases, mode, tag, sig_prefix=None, timeout=3000, alternate_rnd=None):
     """cases: list of (oid, world, stream).  Runs the code, validates by Pairing_Val, records violations.
-    Returns dict oid -> Execution."""
+    Returns dict oid -> Execution.  With alternate_rnd, consecutive cases of the SAME world (same thread ids, same
+    codes) run on separate parser objects that are fed alternately: each must still behave as the spec says alone."""
     from .tlc import validate_observations
     sig_prefix = sig_prefix or ctx.prop
     obs = []
     by_id = {}
     execs = {}
-    for oid, w, stream in cases:
-        ex = run_stream(w, stream)
-        execs[oid] = ex
-        by_id[oid] = (w, stream, ex)
-        obs.append(observation(oid, stream, ex, mode))
+    i = 0
+    while i < len(cases):
+        j = i + 1
+        while alternate_rnd is not None and j < len(cases) and cases[j][1] is cases[i][1] and j - i < 4:
+            j += 1
+        group = cases[i:j]
+        if len(group) > 1:
+            exs = run_streams_alternating(group[0][1], [c[2] for c in group], alternate_rnd)
+        else:
+            exs = [run_stream(group[0][1], group[0][2])]
+        for (oid, w, stream), ex in zip(group, exs):
+            execs[oid] = ex
+            by_id[oid] = (w, stream, ex)
+            obs.append(observation(oid, stream, ex, mode))
+        i = j
     nv, rej, _ = validate_observations('Pairing_Val', obs, ctx.workdir, name=tag, consts=VAL_CONSTS, timeout=timeout)
     ctx.traces += nv
     for oid, clause in rej:
